@@ -43,6 +43,10 @@ Record turn := { t_rows : N; t_value : Z; t_act : act }.
 Record script := {
   sc_fail : bool;                  (* unary handler / stream init fails *)
   sc_n : N;                        (* u_blob: length of the result *)
+  sc_var : N;                      (* stream methods: which output schema the init handler builds for THIS call
+                                      (a fresh schema object per call): 0 {v:int64}; 1, 2 the same with field
+                                      metadata unit=a / unit=b; 3 with schema metadata; 4, 5 {d:fixed_size_binary[16 / 32]},
+                                      each row the int64 value then zero padding. 0-3 and 4-5 share an Arrow fingerprint *)
   sc_turns : list turn }.
 Record item := { it_wish : wish; it_rows : N; it_val : Z }.   (* exchange input: rows values, all val; producer: a tick *)
 Record call := {
@@ -63,7 +67,10 @@ Fixpoint lookup_sz (k : N) (l : list (N * sz)) : sz :=
 
 (* ---------- responses -------------------------------------------------------- *)
 Inductive wframe :=
-| WData (units : N) (sum : Z) (ptr : option (N * N))   (* rows (blob: bytes), sum of the values; shipped as a pointer (offset, length) *)
+| WData (sch : N) (units : N) (sum : Z) (ptr : option (N * N))
+    (* the schema the client decodes the batch under, rendered in full (names, types, widths, nullability, field and
+       schema metadata) and numbered: the variant for stream batches, 50 for the u_blob result, 99 anything else;
+       rows (blob: bytes); sum of the values; shipped as a pointer (offset, length) *)
 | WExc (ty : bytes)
 | WOther.
 
@@ -73,11 +80,11 @@ Definition err_exc (k : errkind) : bytes := match k with EScript => exc_value_er
 
 (* the client's view of a frame: pointers resolved *)
 Definition view_frame (f : wframe) : wframe :=
-  match f with WData u s _ => WData u s None | _ => f end.
+  match f with WData v u s _ => WData v u s None | _ => f end.
 Definition view (r : list (list wframe)) : list (list wframe) := map (map view_frame) r.
 
 Definition ptr_offs (fs : list wframe) : list N :=
-  flat_map (fun f => match f with WData _ _ (Some (off, _)) => [off] | _ => [] end) fs.
+  flat_map (fun f => match f with WData _ _ _ (Some (off, _)) => [off] | _ => [] end) fs.
 
 (* ---------- allocator steps (Model/C34.v) --------------------------------- *)
 (* AllocateAndWrite: canFitLocked(estimate), then allocateLocked(stored length) *)
@@ -128,12 +135,22 @@ Definition ship (g : cfg) (engaged nonempty : bool) (units : N) (sum : Z) (z : s
   | Some size =>
       if engaged && nonempty && negb (z_buf z <? g_gate g)%Z then
         match write_slot size z t with
-        | (Some p, t') => (WData units sum (Some p), t')
-        | (None, t') => (WData units sum None, t')          (* no room: falls back to the pipe *)
+        | (Some p, t') => (WData 0 units sum (Some p), t')
+        | (None, t') => (WData 0 units sum None, t')        (* no room: falls back to the pipe *)
         end
-      else (WData units sum None, t)
-  | None => (WData units sum None, t)
+      else (WData 0 units sum None, t)
+  | None => (WData 0 units sum None, t)
   end.
+
+(* the schema a frame is decoded under is the one the call's handler chose; the size oracle
+   is keyed by variant * 65536 + rows *)
+Definition set_var (v : N) (f : wframe) : wframe := match f with WData _ u s p => WData v u s p | _ => f end.
+Definition retag (v : N) (fs : list wframe) : list wframe := map (set_var v) fs.
+Definition sel_var (v : N) (l : list (N * sz)) : list (N * sz) :=
+  flat_map (fun e => if fst e / 65536 =? v then [(fst e mod 65536, snd e)] else []) l.
+Definition out_cfg (g : cfg) (v : N) : cfg :=
+  {| g_size := g_size g; g_gate := g_gate g; g_szi := sel_var v (g_szi g); g_szb := g_szb g |}.
+Definition blob_schema : N := 50.
 
 (* ---------- the lockstep loop ------------------------------------------------ *)
 Definition default_turn (exchange : bool) : turn :=
@@ -254,13 +271,13 @@ Definition serve (v : variant) (g : cfg) (seg_now : bool) (a : adv) (c : call) (
             let n := sc_n (c_script c) in
             (* serveUnary passes the one-row result batch to MaybeWriteToShm *)
             let ft := ship g engaged true n (Z.of_N n * c_x c)%Z (lookup_sz n (g_szb g)) t' in
-            {| a_resp := [[fst ft]]; a_tab := snd ft; a_own := own'; a_alive := true; a_bad := false |}
+            {| a_resp := [[set_var blob_schema (fst ft)]]; a_tab := snd ft; a_own := own'; a_alive := true; a_bad := false |}
       | MProd | MExch =>
           if sc_fail (c_script c) then err exc_value_error          (* init error: the input is drained unresolved *)
           else
             let exchange := match c_method c with MExch => true | _ => false end in
-            let r := lockstep (v_input_refuse v) g exchange engaged (sc_turns (c_script c)) items {| l_tab := t'; l_own := own' |} in
-            {| a_resp := [fst (fst r)]; a_tab := l_tab (snd (fst r)); a_own := l_own (snd (fst r)); a_alive := true; a_bad := snd r |}
+            let r := lockstep (v_input_refuse v) (out_cfg g (sc_var (c_script c))) exchange engaged (sc_turns (c_script c)) items {| l_tab := t'; l_own := own' |} in
+            {| a_resp := [retag (sc_var (c_script c)) (fst (fst r))]; a_tab := l_tab (snd (fst r)); a_own := l_own (snd (fst r)); a_alive := true; a_bad := snd r |}
       end
   end.
 
@@ -336,7 +353,7 @@ Definition model : input -> obs := model_v current.
 (* ---------- equality on observations ------------------------------------------- *)
 Definition wframe_eqb (a b : wframe) : bool :=
   match a, b with
-  | WData u s p, WData u' s' p' => N.eqb u u' && Z.eqb s s' && opt_eqb (pair_eqb N.eqb N.eqb) p p'
+  | WData v u s p, WData v' u' s' p' => N.eqb v v' && N.eqb u u' && Z.eqb s s' && opt_eqb (pair_eqb N.eqb N.eqb) p p'
   | WExc t, WExc t' => beqb t t'
   | WOther, WOther => true
   | _, _ => false
@@ -353,7 +370,7 @@ Definition obs_eqb (a b : obs) : bool :=
 (* ---------- the property in decidable form, on one observation ------------------
    Judged from the input and from what the CLIENT itself can see: what it sent
    as pointers, the streams it read, the allocation table of its segment. *)
-Definition no_ptr_frame (f : wframe) : bool := match f with WData _ _ (Some _) => false | _ => true end.
+Definition no_ptr_frame (f : wframe) : bool := match f with WData _ _ _ (Some _) => false | _ => true end.
 
 (* the first exchange input that went out as a pointer the server cannot resolve:
    the call did not engage the segment, or the pointer leads nowhere *)
@@ -436,7 +453,7 @@ Fixpoint all_consumed (att : bool) (cs : list call) (ws : list cobs) : bool :=
    turn then does - answers, fails, panics, emits nothing, emits twice - the slot is gone. *)
 Fixpoint processed (fs : list wframe) : nat :=
   match fs with
-  | WData _ _ _ :: r => S (processed r)
+  | WData _ _ _ _ :: r => S (processed r)
   | WExc ty :: _ => if beqb ty exc_io_error then O else 1%nat
   | _ => O
   end.
